@@ -219,6 +219,34 @@ class AngleMonitors:
         cls.__init__ = wrapper
         self.installed.append(('HPAngle.__init__', fn, wrapper, 1))
 
+    def _wrap_typecheck(self):
+        A = self.A
+        fn = getattr(A, 'angular_typecheck', None)
+        if fn is None:
+            return
+        mon = self
+
+        def wrapper(angle):
+            if not mon.active or type(angle).__name__ not in ax.ANGLE_CLASSES:
+                return fn(angle)
+            try:
+                r = fn(angle)
+            except Exception as e:
+                mon.judge('angular_typecheck', 'obj', angle, 'dec', None, e)
+                raise
+            mon.judge('angular_typecheck', 'obj', angle, 'dec', r, None)
+            return r
+        wrapper.__name__ = 'angular_typecheck'
+        wrapper.__wrapped__ = fn
+        from . import core
+        n = 0
+        for mod in core.repo_namespaces():
+            for kk, vv in list(vars(mod).items()):
+                if vv is fn:
+                    setattr(mod, kk, wrapper)
+                    n += 1
+        self.installed.append(('angular_typecheck', fn, wrapper, n))
+
     def install(self):
         A = self.A
         for src in NUM_ABBR:
@@ -232,6 +260,7 @@ class AngleMonitors:
                 if m in cls.__dict__:
                     self._wrap_method(cls, m)
         self._wrap_hp_init()
+        self._wrap_typecheck()
         return self
 
     def uninstall(self):
